@@ -296,20 +296,29 @@ class LinearPolynomial(BaseDeferred):
         new_coeffs = []
         new_constant_term = self.constant_term
 
-        for key, value in self.coeffs.items():
+        pending = list(self.coeffs.items())
+        for key, value in pending:  # (grows while it is walked)
             variable = key
             with try_compute:
                 key = key.wait()
             if isinstance(key, BaseDeferred):
                 key = key.get_current_best_estimate()
-            if isinstance(variable, Promise) and isinstance(key, BaseDeferred) and not isinstance(key, LinearPolynomial):
+            if isinstance(variable, Promise) and isinstance(key, BaseDeferred) and not isinstance(key, (LinearPolynomial, Promise)):
                 # The promise (e.g. the link base) is settled with a value that is still being computed. Keep
                 # the promise itself as the variable, so that it cancels against its other occurrences
                 key = variable
 
+            # A settled promise met on the way (the base of an included file, known since the end of the
+            # '.include') is replaced with its value as well, so that it cancels against the link base
             if isinstance(key, LinearPolynomial):
-                new_coeffs += [(key1, value1 * value) for key1, value1 in key.coeffs.items()]
+                for key1, value1 in key.coeffs.items():
+                    if isinstance(key1, Promise) and key1.settled:
+                        pending.append((key1, value1 * value))
+                    else:
+                        new_coeffs.append((key1, value1 * value))
                 new_constant_term += key.constant_term * value
+            elif isinstance(key, Promise) and key.settled and key is not variable:
+                pending.append((key, value))
             elif isinstance(key, BaseDeferred):
                 new_coeffs.append((key, value))
             else:
